@@ -283,3 +283,20 @@ package keeper
 //@   ensures[C03.dhc.spec]   (err != nil) <==> old(holdCount(ctx, recordKey)) == 0
 //@   ensures[C03.dhc.dec]    err == nil ==> holdCount(ctx, recordKey) == old(holdCount(ctx, recordKey)) - 1 && holdCount(ctx, recordKey) >= 0
 //@   ensures[C09.dhc.atomic] err != nil ==> state(ctx) == old(state(ctx))
+
+// ---------------------------------------------------------------------------------------------
+// C03 "never early": the records handed to completion at height h are exactly those filed under completion height h
+
+//@ define pendPfx() = g("x/delegation/types.KeyPrefixPendingUndelegations")
+// INV(C03): every entry of the pending index is keyed join(hex(completeHeight), hex(nonce)) (SetUndelegationRecords is the only writer)
+//@ define pendIdxWellFormed(c) = forallb(k, get(c, "delegation", cat(pendPfx(), k)) != nil ==>
+//@        is_join(k, 2) && is_hexu64(kf_1(k)) && 0 <= hexv(kf_1(k)) && hexv(kf_1(k)) < 18446744073709551616)
+
+//@ func (*Keeper).GetPendingUndelegationRecKeys
+//@   requires pendIdxWellFormed(ctx)
+//@   ensures[C03.gpurk.noerr] err == nil && len(recordKeyList) == it_n
+//@   ensures[C03.gpurk.due]   forall(j, 0, it_n, pendkey_height(it_seq[j]) == height)
+//@   ensures[C03.gpurk.vals]  forall(j, 0, it_n, recordKeyList[j] == get(ctx, "delegation", cat(pendPfx(), it_seq[j])))
+//@ loop #1
+//@   invariant 0 <= it_idx && it_idx <= it_n && len(ret) == it_idx
+//@   invariant forall(j, 0, it_idx, ret[j] == get(ctx, "delegation", cat(pendPfx(), it_seq[j])))
